@@ -213,7 +213,7 @@ def gen_fb(F, digs, rng, tier, budget=1.0):
         rd(b"-")
         rd(b"-\0")
         for v in [(1 << m) - 1, 1 << m, (1 << m) | 1, (1 << (m + 1)) - 1, 1 << (8 * fb), F.f, 1 << (m + 70)]:
-            rd(numeral(v, radix if radix > 1 else 2).encode() + b"\0")  # degree m - 1 (the largest), then too large
+            rd(numeral(v, min(max(radix, 2), 64)).encode() + b"\0")     # degree m - 1 (the largest), then too large
         lr = max(1, radix.bit_length() - 1)
         rd(b"1" * ((F.wbits * digs) // lr + 40) + b"\0")               # longer than the integer precision
         rd(b"0" * 50 + b"1\0")
@@ -467,7 +467,7 @@ def gen_tiny_fb(F, rng, tier):
         for radix in range(0, 71) if (not quick or v % 9 == 0) else VALID_RADIX:
             cases.append("fb_size_str %s %s %d" % (c, hx(v), radix))
             if radix in VALID_RADIX or v % 9 == 0:
-                nm = numeral(v, radix if radix > 1 else 2)
+                nm = numeral(v, min(max(radix, 2), 64))             # an invalid radix: any numeral will do
                 cases.append("fb_write_str %s %s %d %d" % (c, hx(v), radix, len(nm) + 1))
                 cases.append("fb_read_str %s %s %d" % (c, hb(nm.encode() + b"\0"), radix))
     return cases
